@@ -12,7 +12,7 @@ import asyncio
 from collections.abc import Callable
 from typing import Any
 
-from OpenSSL import SSL
+from OpenSSL import SSL, crypto
 
 from ..security.pyopenssl_tls import (
     get_peer_certificate_from_connection,
@@ -201,7 +201,14 @@ class TLSServerProtocol(asyncio.Protocol):
         # Extract client certificate and attach to transport wrapper
         peer_cert = get_peer_certificate_from_connection(self.tls_conn)
         if peer_cert:
-            inner_transport.peer_certificate = x509_to_cryptography(peer_cert)
+            try:
+                inner_transport.peer_certificate = x509_to_cryptography(peer_cert)
+            except Exception:
+                # OpenSSL completed the handshake with a certificate that cannot be
+                # loaded: hand its bytes on, the inner protocol refuses the request
+                inner_transport.peer_certificate = crypto.dump_certificate(
+                    crypto.FILETYPE_ASN1, peer_cert
+                )
             logger.debug(
                 "client_certificate_received",
                 client_ip=self._peer_name[0] if self._peer_name else "unknown",
@@ -389,6 +396,8 @@ class _SSLObjectWrapper:
         """
         if self._cert is None:
             return None
+        if binary_form and isinstance(self._cert, bytes):
+            return self._cert
         if binary_form:
             from cryptography.hazmat.primitives import serialization
 
